@@ -103,6 +103,11 @@ def gen_document(rng):
                 f["content"][f"e{i}{j}"] = f"${a} * ${b}"
             else:
                 f["content"][f"u{i}{j}"] = "$undefinedVar"
+        if used and rng.random() < 0.5:
+            a = rng.choice(used)
+            # lists that start with a number and hold references / expressions further back, and matrix rows
+            f["content"][f"vec{i}"] = [rng.randrange(1, 9), "$" + a, f"${a} * 2"]
+            f["content"][f"mat{i}"] = [[0.5, f"${a} + 1"], [rng.randrange(1, 9), rng.randrange(1, 9)]]
     if nfiles >= 2:
         files[0]["includes"].append("f1")
     if nfiles == 3:
@@ -218,6 +223,7 @@ def run(ctx):
             t[" # include2"] = "sub/other"
         t["ref"] = rng.choice(["$a", " $a ", "$a + 1", "$a[0]", "x $a y", "$a $b", "no dollar", "$", "a$b"])
         t["lst"] = ["$x", {"deep": "$y * 2"}, 1]
+        t["numfirst"] = [1, "$x", "$y + 1", [2.5, "$z"]]
         mtrees.append(t)
     mlines, ilines = [], []
     for t in mtrees:
